@@ -168,6 +168,31 @@ theorem massaction_operators_coefficient_level (ctx : Ctx ℝ) (c o e : Val ℝ)
     ∧ (pyDivOp o ma = .ok e → k ≠ 0 → eval ctx e = .ok (b / k * P)) :=
   massAction_ops ctx c o e k b reac conc hr hc hk hb hmo
 
+/-- `UnaryWrapper` arithmetic is REFUSED for a wrapper that carries unique keys (`ValueError`: "UnaryWrapper can only be used when
+unique_keys are None"): `ma * o`, `o * ma`, `ma / o` (o ≠ 1) and `o / ma` build nothing — so a product can never be silently
+replaced as a whole by the override of the wrapped rate constant (`MassAction([3.0], ['k_fw']) * 2` with `k_fw = 7` is an error,
+not `7·conc`). -/
+theorem unarywrapper_refuses_unique_keys (na : Bool) (args : List (Val ℝ)) (u : List String) (o : Val ℝ)
+    (ho : o.isMassAction = false) :
+    let ma : Val ℝ := .node .massAction na args (some u)
+    pyMul ma o = .error .valueError ∧ pyMul o ma = .error .valueError
+    ∧ (isOne o = false → pyDivOp ma o = .error .valueError) ∧ pyDivOp o ma = .error .valueError := by
+  intro ma
+  have hu : uwArg ma = .error .valueError := by simp [ma, uwArg]
+  have hm : ma.isMassAction = true := rfl
+  have hn : ma.isNode = true := rfl
+  have h1 : isOne ma = false := rfl
+  refine ⟨?_, ?_, ?_, ?_⟩
+  · simp [pyMul, hn, exprMul, hm, hu]
+  · cases hon : o.isNode
+    · simp [pyMul, hon, hn, exprMul, hm, hu]
+    · simp [pyMul, hon, exprMul, ho, h1, hm, hu]
+  · intro hone
+    simp [pyDivOp, hn, exprDiv, hone, hm, hu]
+  · cases hon : o.isNode
+    · simp [pyDivOp, hon, hn, exprRDiv, hm, hu]
+    · simp [pyDivOp, hon, exprDiv, h1, ho, hm, exprRDiv, hu]
+
 /-! ## named overrides -/
 
 /-- `override_replaces_exactly`.  For an instance of any class whose stored arguments evaluate to `g` and whose
